@@ -14,7 +14,7 @@ import ast
 import re
 from pathlib import Path
 
-from gen.c06_walk import Walker, find_method, normalise
+from gen.c06_walk import Walker, canonicalise_by_value, find_method, normalise
 from gen.py2coq import Untranslatable
 
 FS_NAMES = r"read_text|read_bytes|\bopen\(|FileInput|relfn2path|note_included|listdir|glob\(|\.stat\(|record_dependencies|urlopen"
@@ -31,7 +31,9 @@ LOOP_ITERS = [r"document\.traverse\(nodes\.raw\)", r"document\.findall\(nodes\.r
 
 def gen_loop(repo: Path) -> str:
     tree = ast.parse((repo / "myst_parser/parsers/docutils_.py").read_text(encoding="utf8"))
-    parse = find_method(tree, "Parser", "parse")
+    parse = canonicalise_by_value(find_method(tree, "Parser", "parse"), [
+        (r"document\.reporter\.warning\(.*\)", "warning"),
+        (r"(?:list\()?document\.(?:traverse|findall)\(nodes\.raw\)\)?", "node")])
     blocks = [s for s in parse.body if isinstance(s, ast.If) and "raw_enabled" in ast.unparse(s.test)]
     if len(blocks) != 1 or blocks[0].orelse:
         raise Untranslatable("Parser.parse: expected exactly one top-level `if ... raw_enabled ...:` without else")
@@ -95,9 +97,28 @@ RUN_RULES = [
 ]
 
 
+# canonical names of the locals the RULES mention, by what they are first bound to
+RUN_CANON = [
+    (r"Path\(self\.document\['source'\]\)\.absolute\(\)\.parent", "source_dir"),
+    (r"''\.join\(\[\w+\.strip\(\) for \w+ in self\.arguments\[0\]\.splitlines\(\)\]\)", "include_arg"),
+    (r"Path\(self\.klass\.standard_include_path\)\.joinpath\(include_arg\[1:-1\]\)", "path"),
+    (r"self\.document\.settings\.env", "sphinx_env"),
+    (r"self\.options\.get\('encoding', self\.document\.settings\.input_encoding\)", "encoding"),
+    (r"self\.document\.settings\.input_encoding_error_handler", "error_handler"),
+    (r"path\.read_text\(encoding=encoding, errors=error_handler\)", "file_content"),
+    (r"self\.options\.get\('start-line', None\)", "startline"),
+    (r"self\.options\.get\('end-line', None\)", "endline"),
+    (r"\['start-after', 'end-before'\]", "split_on_type"),
+    (r"nodes\.literal_block\(file_content, .*\)", "literal_block"),
+    (r"CodeBlock\(.*\)", "codeblock"),
+    (r"self\.renderer\.md_env\.setdefault\('include_log', .*\)", "include_log"),
+    (r"\(os\.path\.normpath\(path\), tuple\(.*\)\)", "include_key"),
+]
+
+
 def gen_run(repo: Path) -> str:
     tree = ast.parse((repo / "myst_parser/mocking.py").read_text(encoding="utf8"))
-    run = find_method(tree, "MockIncludeDirective", "run")
+    run = canonicalise_by_value(find_method(tree, "MockIncludeDirective", "run"), RUN_CANON)
     w = Walker(RUN_RULES, [], state="tr", final="(HError 0 name, tr)")
     body = w.block(list(run.body))
     if "(HError 0 name, tr)" in body:
